@@ -231,6 +231,9 @@ class PRO(Ty):
     def __repr__(self):
         return "PRO({})".format(len(self))
 
+    def __hash__(self):
+        return hash(Ty.__repr__(self))
+
     def __str__(self):
         return repr(len(self))
 
